@@ -390,7 +390,9 @@ wait:
 		}
 	}
 	lf.Close()
-	if werr == nil && !hang {
+	// a -race worker that saw races exits with status 66 after writing its result: the
+	// result is still valid (the race reports are collected from the detector log)
+	if (werr == nil || (ps.race && fileExists(outF))) && !hang {
 		b, err := os.ReadFile(outF)
 		if err == nil {
 			var r props.Result
@@ -653,4 +655,9 @@ func replay(args []string) int {
 		return 1
 	}
 	return 0
+}
+
+func fileExists(p string) bool {
+	_, err := os.Stat(p)
+	return err == nil
 }
